@@ -193,3 +193,176 @@ Proof.
     + destruct (snd x); [discriminate|reflexivity].
     + rewrite forallb_forall. intros w Hw. apply in_map_iff in Hw as (z & <- & _). apply str_of_Z_good.
 Qed.
+
+(* ------------------------------------------------------------------------------------------ file names of parser.write_one *)
+(* file_name = f"{str(id+1).rjust(4, '0')}_{num_jobs}j_{num_machines}m.txt" *)
+Definition rjust (n : nat) (c : ascii) (s : text) : text := repeat c (n - length s) ++ s.
+Definition file_name (id nj nm : Z) : text :=
+  rjust 4 "0" (str_of_Z (id + 1)) ++ ["_"%char] ++ str_of_Z nj ++ ["j"; "_"]%char ++ str_of_Z nm
+        ++ ["m"; "."; "t"; "x"; "t"]%char.
+
+Fixpoint take_while {A} (p : A -> bool) (l : list A) : list A :=
+  match l with [] => [] | x :: r => if p x then x :: take_while p r else [] end.
+Fixpoint drop_while {A} (p : A -> bool) (l : list A) : list A :=
+  match l with [] => [] | x :: r => if p x then drop_while p r else l end.
+
+(* the 0-based index a file name carries: the numeral before the first '_' , minus one *)
+Definition index_of_name (name : text) : option Z :=
+  option_map (fun k => (k - 1)%Z) (Z_of_str (take_while (fun c => negb (Ascii.eqb c "_")) name)).
+
+Lemma take_while_app_stop {A} (p : A -> bool) a c r :
+  forallb p a = true -> p c = false -> take_while p (a ++ c :: r) = a.
+Proof.
+  induction a as [|x a IH]; simpl; intros H Hc; [rewrite Hc; reflexivity|].
+  apply andb_prop in H as [H1 H2]. rewrite H1, IH by assumption. reflexivity.
+Qed.
+Lemma drop_while_app_stop {A} (p : A -> bool) a c r :
+  forallb p a = true -> p c = false -> drop_while p (a ++ c :: r) = c :: r.
+Proof.
+  induction a as [|x a IH]; simpl; intros H Hc; [rewrite Hc; reflexivity|].
+  apply andb_prop in H as [H1 H2]. rewrite H1, IH by assumption. reflexivity.
+Qed.
+
+Definition not_us (c : ascii) : bool := negb (Ascii.eqb c "_").
+Lemma uint_chars_not_us d : forallb not_us (list_ascii_of_string (NilEmpty.string_of_uint d)) = true.
+Proof. induction d; simpl; try reflexivity; exact IHd. Qed.
+
+(* for n >= 0: str(n) is the digit string of a non-Nil uint whose value is n *)
+Lemma str_of_Z_nonneg n : (0 <= n)%Z ->
+  exists u, str_of_Z n = list_ascii_of_string (NilEmpty.string_of_uint u) /\ u <> Decimal.Nil /\ Z.of_uint u = n.
+Proof.
+  intros Hn. destruct n as [|p|p]; [| |lia].
+  - exists (Decimal.D0 Decimal.Nil). repeat split; discriminate || reflexivity.
+  - exists (Pos.to_uint p). pose proof (Unsigned.to_uint_nonnil p) as Hnn. split; [|split].
+    + unfold str_of_Z. simpl Z.to_int. unfold NilZero.string_of_int, NilZero.string_of_uint.
+      destruct (Pos.to_uint p); try reflexivity. congruence.
+    + exact Hnn.
+    + pose proof (DecimalZ.of_to (Z.pos p)) as E. simpl in E. exact E.
+Qed.
+
+Fixpoint zeros_uint (k : nat) (u : Decimal.uint) : Decimal.uint :=
+  match k with O => u | S k' => Decimal.D0 (zeros_uint k' u) end.
+Lemma of_uint_zeros k u : Z.of_uint (zeros_uint k u) = Z.of_uint u.
+Proof. induction k as [|k IH]; simpl; [reflexivity|]. exact IH. Qed.
+
+Lemma uint_of_zeros k u :
+  NilEmpty.uint_of_string (string_of_list_ascii (repeat "0"%char k ++ list_ascii_of_string (NilEmpty.string_of_uint u)))
+  = Some (zeros_uint k u).
+Proof.
+  induction k as [|k IH]; simpl.
+  - rewrite string_of_list_ascii_of_string. apply NilEmpty.usu.
+  - rewrite IH. reflexivity.
+Qed.
+
+Lemma Z_of_str_zero_padded k n : (0 <= n)%Z -> Z_of_str (repeat "0"%char k ++ str_of_Z n) = Some n.
+Proof.
+  intros Hn. destruct k as [|k]; [apply Z_of_str_of_Z|].
+  destruct (str_of_Z_nonneg n Hn) as (u & E & Hu & Hv). rewrite E. unfold Z_of_str.
+  pose proof (uint_of_zeros (S k) u) as H. simpl repeat in *. simpl app in *. simpl string_of_list_ascii in *.
+  unfold NilZero.int_of_string. simpl Ascii.eqb. cbv iota. unfold NilZero.uint_of_string.
+  rewrite H. change (Some (Z.of_uint (zeros_uint (S k) u)) = Some n). rewrite of_uint_zeros. f_equal. exact Hv.
+Qed.
+
+(* the index is recoverable from the name: distinct instances of one write() call get distinct file names *)
+Theorem index_of_file_name id nj nm : (0 <= id)%Z -> index_of_name (file_name id nj nm) = Some id.
+Proof.
+  intros Hid. unfold index_of_name, file_name, rjust.
+  destruct (str_of_Z_nonneg (id + 1)%Z ltac:(lia)) as (u & E & _ & _).
+  fold not_us.
+  match goal with |- context [take_while ?p (?a ++ [?c] ++ ?r)] =>
+    change (take_while p (a ++ [c] ++ r)) with (take_while p (a ++ c :: r)) end.
+  rewrite take_while_app_stop.
+  - rewrite Z_of_str_zero_padded by lia. simpl. f_equal. lia.
+  - rewrite forallb_app. apply andb_true_intro. split.
+    + clear. induction (4 - length (str_of_Z (id + 1))) as [|k IH]; [reflexivity|]. simpl. exact IH.
+    + rewrite E. apply uint_chars_not_us.
+  - reflexivity.
+Qed.
+
+Corollary file_name_injective i j nj nm nj' nm' :
+  (0 <= i)%Z -> (0 <= j)%Z -> file_name i nj nm = file_name j nj' nm' -> i = j.
+Proof.
+  intros Hi Hj E. pose proof (index_of_file_name i nj nm Hi) as A. rewrite E, (index_of_file_name j nj' nm' Hj) in A.
+  congruence.
+Qed.
+
+(* ------------------------------------------------------------------------------------------ rl4co/data/utils.py: check_extension *)
+(* os.path.splitext(p)[1]: from the last '.' of the last path component, unless only dots precede it there *)
+Definition is_dot (c : ascii) : bool := Ascii.eqb c ".".
+Definition is_sep (c : ascii) : bool := Ascii.eqb c "/".
+Definition basename_rev (p : text) : text := take_while (fun c => negb (is_sep c)) (rev p).     (* reversed *)
+Definition ext_of (p : text) : text :=
+  let r := basename_rev p in
+  match drop_while (fun c => negb (is_dot c)) r with
+  | [] => []                                                   (* no dot in the last component *)
+  | dot :: pre => if existsb (fun c => negb (is_dot c)) pre
+                  then dot :: rev (take_while (fun c => negb (is_dot c)) r)
+                  else []                                      (* ".npz", "..x": leading dots only *)
+  end.
+
+Fixpoint text_eqb (a b : text) : bool :=
+  match a, b with
+  | [], [] => true
+  | x :: a', y :: b' => Ascii.eqb x y && text_eqb a' b'
+  | _, _ => false
+  end.
+Lemma text_eqb_refl a : text_eqb a a = true.
+Proof. induction a; simpl; [reflexivity|]. rewrite Ascii.eqb_refl. exact IHa. Qed.
+Lemma text_eqb_eq a b : text_eqb a b = true -> a = b.
+Proof.
+  revert b; induction a as [|x a IH]; intros [|y b]; simpl; try discriminate; [reflexivity|].
+  intros H. apply andb_prop in H as [H1 H2]. apply Ascii.eqb_eq in H1. subst. f_equal. apply IH. exact H2.
+Qed.
+
+(* if os.path.splitext(filename)[1] != extension: return filename + extension ; return filename *)
+Definition check_extension (filename ext : text) : text :=
+  if text_eqb (ext_of filename) ext then filename else filename ++ ext.
+
+(* an extension as rl4co uses it: a dot followed by characters that are neither dots nor separators *)
+Definition plain_ext (e : text) : bool := forallb (fun c => negb (is_dot c) && negb (is_sep c)) e.
+
+Lemma ext_of_append f e :
+  plain_ext e = true -> existsb (fun c => negb (is_dot c)) (basename_rev f) = true ->
+  ext_of (f ++ "."%char :: e) = "."%char :: e.
+Proof.
+  intros He Hf. unfold ext_of, basename_rev. rewrite rev_app_distr. simpl rev. rewrite <- app_assoc. simpl app.
+  assert (H1 : forallb (fun c => negb (is_sep c)) (rev e) = true).
+  { unfold plain_ext in He. rewrite forallb_forall in *. intros c Hc. apply in_rev in Hc. apply He in Hc.
+    apply andb_prop in Hc. tauto. }
+  assert (H2 : forallb (fun c => negb (is_dot c)) (rev e) = true).
+  { unfold plain_ext in He. rewrite forallb_forall in *. intros c Hc. apply in_rev in Hc. apply He in Hc.
+    apply andb_prop in Hc. tauto. }
+  (* the last component of f ++ "." ++ e, reversed, is rev e ++ "." :: (last component of f, reversed) *)
+  assert (HB : take_while (fun c => negb (is_sep c)) (rev e ++ "."%char :: rev f)
+               = rev e ++ "."%char :: take_while (fun c => negb (is_sep c)) (rev f)).
+  { clear -H1. induction (rev e) as [|x l IH]; simpl in *; [reflexivity|].
+    apply andb_prop in H1 as [A B]. rewrite A, IH by exact B. reflexivity. }
+  rewrite HB. rewrite drop_while_app_stop, take_while_app_stop by (assumption || reflexivity).
+  unfold basename_rev in Hf. rewrite Hf, rev_involutive. reflexivity.
+Qed.
+
+(* whatever name the user gives (with a real last component), the result carries the extension, exactly once *)
+Theorem check_extension_has_ext f e :
+  plain_ext e = true -> existsb (fun c => negb (is_dot c)) (basename_rev f) = true ->
+  ext_of (check_extension f ("."%char :: e)) = "."%char :: e.
+Proof.
+  intros He Hf. unfold check_extension. destruct (text_eqb (ext_of f) ("."%char :: e)) eqn:E.
+  - apply text_eqb_eq. exact E.
+  - apply ext_of_append; assumption.
+Qed.
+
+Theorem check_extension_idempotent f e :
+  plain_ext e = true -> existsb (fun c => negb (is_dot c)) (basename_rev f) = true ->
+  check_extension (check_extension f ("."%char :: e)) ("."%char :: e) = check_extension f ("."%char :: e).
+Proof.
+  intros He Hf. unfold check_extension at 1. rewrite check_extension_has_ext by assumption.
+  rewrite text_eqb_refl. reflexivity.
+Qed.
+
+Theorem check_extension_cases f ext :
+  (ext_of f = ext /\ check_extension f ext = f) \/ (ext_of f <> ext /\ check_extension f ext = f ++ ext).
+Proof.
+  unfold check_extension. destruct (text_eqb (ext_of f) ext) eqn:E.
+  - left. split; [apply text_eqb_eq; exact E|reflexivity].
+  - right. split; [|reflexivity]. intros H. rewrite H, text_eqb_refl in E. discriminate.
+Qed.
